@@ -117,6 +117,23 @@ class GraphCheck:
                 shards.append({"kind": "gen", "cls": cls, "seed": seed, "start": start,
                                "count": c, "payload": payload})
                 start += c
+        # fault histories (M-fault): the same kind of case, each preceded in the
+        # same process by runs of the very same case that are aborted by an
+        # injected exception at a random library call
+        if getattr(self, "fault_histories", True):
+            shards.append({"kind": "exh", "n": 4, "shard": 0, "nshards": 1, "stride": 4 if quick else 1,
+                           "offset": seed % 4 if quick else 0, "faults": 1})
+            for cls, q, t, payload in self.classes:
+                total = max(1, int((q if quick else t) * self.scale * 0.08))
+                per = 40 if quick else 400
+                if cls == "cons_large":
+                    total = max(1, total // 4)
+                start = 0
+                while start < total:
+                    c = min(per, total - start)
+                    shards.append({"kind": "gen", "cls": cls, "seed": seed, "start": 500000 + start,
+                                   "count": c, "payload": payload, "faults": 2})
+                    start += c
         if self.with_real:
             nsh = 16
             for s in range(nsh):
@@ -133,6 +150,13 @@ class GraphCheck:
 
     # ------------------------------------------------------------ cases
     def cases(self, spec):
+        nf = spec.get("faults")
+        for case in self._cases(spec):
+            if nf:
+                case["faults"] = nf
+            yield case
+
+    def _cases(self, spec):
         k = spec["kind"]
         if k == "exh":
             stride = spec.get("stride", 1)
@@ -206,7 +230,27 @@ class GraphCheck:
                 return None
         raise ValueError(case["kind"])
 
+    def fault_prefix(self, case, acc, tier, tries):
+        """M-fault: abort `tries` runs of this very case (throw-away objects,
+        oracles included, so their library calls - rendering, writing,
+        iterating - are fault points too) at random library calls."""
+        from ..monitors import fault
+
+        scratch = ShardAcc(self.PROPERTY)
+        c0 = {k: v for k, v in case.items() if k != "faults"}
+        fctx = core.Ctx(None)
+        rng = random.Random(core.sha([c0.get("g") or c0.get("src") or c0.get("origin"), "fault"]))
+        sites = fault.inject_around(fctx, rng, lambda: self.run_case(c0, scratch, tier), tries,
+                                    cold_key=(self.PROPERTY, c0.get("cls")))
+        acc.counters.update(fctx.counters)
+        acc.counters["cases_run_after_injected_faults"] += 1
+        for s in sites:
+            acc.hist("fault_site", s.split(":")[0])
+        return sites
+
     def run_case(self, case, acc, tier="quick"):
+        if case.get("faults"):
+            self.fault_prefix(case, acc, tier, case["faults"])
         ctx = core.set_ctx(core.Ctx(case.get("id") or case.get("origin")))
         attach.ACTIVE.clear()
         attach.ACTIVE.update(self.oracles)
